@@ -55,6 +55,18 @@ func init() {
 	}
 }
 
+// number of tips of a shared-taxa case: now and then more than 64 (and more than 128), so that the bitsets of the
+// branches span several machine words
+func pickTips(r *rand.Rand, maxT int) int {
+	switch r.Intn(48) {
+	case 0:
+		return 65 + r.Intn(12)
+	case 1:
+		return 129 + r.Intn(6)
+	}
+	return 4 + r.Intn(maxi(1, maxT-3))
+}
+
 func calcGen(maxT int) GenParams {
 	gp := defaultGen()
 	gp.MinTips, gp.MaxTips = 4, maxT
@@ -172,7 +184,7 @@ func caseC14(r *rand.Rand, cw *CalcWriter, label string, maxT int) {
 
 // a pair of unrooted trees on the same taxa, related in one of several ways
 func pairC08(r *rand.Rand, gp *GenParams, maxT int) (a, b *STree, rel string) {
-	nt := 4 + r.Intn(maxi(1, maxT-3))
+	nt := pickTips(r, maxT)
 	names := tipNamesN("t", nt)
 	a = genSTreeOn(r, gp, names, false, 0, 0)
 	switch r.Intn(7) {
@@ -430,7 +442,7 @@ var dyadicCutoffs = [][2]int{{1, 2}, {9, 16}, {5, 8}, {3, 4}, {7, 8}, {1, 1}}
 func caseC09(r *rand.Rand, cw *CalcWriter, label string, maxT int) {
 	gp := calcGen(maxT)
 	gp.PZeroLen = 0.05
-	nt := 4 + r.Intn(maxi(1, maxT-3))
+	nt := pickTips(r, maxT)
 	names := tipNamesN("t", nt)
 	n := 1 + r.Intn(8)
 	coll := collection(r, &gp, names, n, true)
@@ -489,7 +501,7 @@ func caseC09(r *rand.Rand, cw *CalcWriter, label string, maxT int) {
 
 func caseC10(r *rand.Rand, cw *CalcWriter, label string, maxT int) {
 	gp := calcGen(maxT)
-	nt := 4 + r.Intn(maxi(1, maxT-3))
+	nt := pickTips(r, maxT)
 	names := tipNamesN("t", nt)
 	n := 1 + r.Intn(6)
 	coll := collection(r, &gp, names, n+1, false)
